@@ -66,6 +66,10 @@ def check(tier, seed, replay=None):
             recipes.append({"utf8": utf8, "sep": "0a", "known": True, "extra": [],
                             "stdin": hexs(("\n".join(str(x) for x in edge) + "\n[" + ",".join(str(x) for x in edge) + "]\n" +
                                           "\n".join(G.EXTREME_DOUBLES) + "\n").encode())})
+        # deep nesting (the pretty style indents by depth: no level is special)
+        for depth in ((17, 33) if quick else (15, 16, 17, 18, 24, 31, 32, 33, 40, 64)):
+            v = G.nested(rnd, depth, ("arr", [("num", "1"), ("obj", [])]))
+            recipes.append({"utf8": depth % 2 == 0, "sep": "0a", "known": True, "stdin": hexs(G.canonical(v) + b"\n"), "extra": []})
         # the witness of the known finding
         recipes.append({"utf8": False, "sep": "0a", "known": True, "stdin": hexs('"\U0001F603"'.encode()), "extra": []})
 
